@@ -79,6 +79,52 @@ type caseJSON struct {
 	FindingKey string   `json:"finding_key,omitempty"`
 }
 
+// Strings of a configuration are kept JSON-safe: a byte that is not part of valid UTF-8 is written as
+// \x01 followed by two hex digits (encoding/json would silently turn it into U+FFFD in case files,
+// replays and the input of the solo sub-processes).  dec undoes that.
+func dec(s string) string {
+	if !strings.Contains(s, "\x01") {
+		return s
+	}
+	var sb strings.Builder
+	for i := 0; i < len(s); i++ {
+		if s[i] == 1 && i+2 < len(s) {
+			if b, err := hex.DecodeString(s[i+1 : i+3]); err == nil {
+				sb.WriteByte(b[0])
+				i += 2
+				continue
+			}
+		}
+		sb.WriteByte(s[i])
+	}
+	return sb.String()
+}
+
+// decoded returns the configuration with every string in raw bytes
+func (c Config) decoded() Config {
+	d := Config{PreFilter: c.PreFilter, DirFS: c.DirFS}
+	if c.Datasets != nil {
+		d.Datasets = map[string][]string{}
+		for n, es := range c.Datasets {
+			var l []string
+			for _, e := range es {
+				l = append(l, dec(e))
+			}
+			d.Datasets[dec(n)] = l
+		}
+	}
+	if c.Files != nil {
+		d.Files = map[string]string{}
+		for n, content := range c.Files {
+			d.Files[dec(n)] = dec(content)
+		}
+	}
+	for _, it := range c.Items {
+		d.Items = append(d.Items, Item{Kind: it.Kind, Arg: dec(it.Arg), Arg2: dec(it.Arg2)})
+	}
+	return d
+}
+
 // Req is one memoizer call as the model sees it.
 type Req struct {
 	Kind string // pm pmds pmf rx binrx re schema
@@ -102,6 +148,8 @@ func (r Req) term() string {
 		return "(RBinRx " + vh.HxS(r.A) + ")"
 	case "re":
 		return "(RRe " + r.Site + " " + vh.HxS(r.A) + ")"
+	case "rel":
+		return "(RReL " + r.Site + " " + vh.HxS(r.A) + ")"
 	case "schema":
 		return "(RSchema " + vh.HxS(r.A) + ")"
 	}
@@ -119,7 +167,7 @@ func restPattern(arg string) string {
 	return data
 }
 
-// the lines newPMFromFile keeps
+// the lines newPMFromFile keeps, BEFORE it lower-cases them
 func fileLines(content string) []string {
 	var lines []string
 	for _, l := range strings.Split(content, "\n") {
@@ -128,7 +176,7 @@ func fileLines(content string) []string {
 		if l == "" || l[0] == '#' {
 			continue
 		}
-		lines = append(lines, strings.ToLower(l))
+		lines = append(lines, l) // the model applies strings.ToLower (CaseMap) itself
 	}
 	return lines
 }
@@ -151,6 +199,7 @@ func isBinaryRx(arg string) bool { return strings.Contains(arg, `\xf`) }
 // compile renders a configuration as SecLang text and lists the memoizer calls it makes, in call
 // order.  idBase keeps rule ids of successive configurations on one WAF apart.
 func (c Config) compile(idBase int) (string, []Req) {
+	c = c.decoded()
 	var sb strings.Builder
 	var reqs []Req
 	sb.WriteString("SecRuleEngine On\nSecRequestBodyAccess On\n")
@@ -202,7 +251,7 @@ func (c Config) compile(idBase int) (string, []Req) {
 		case "negrx":
 			// REQUEST_HEADERS is not: the regex key is lower-cased before it is compiled
 			fmt.Fprintf(&sb, "SecRule REQUEST_HEADERS|!REQUEST_HEADERS:/%s/ \"@rx %s\" %s", it.Arg, it.Arg2, tail)
-			reqs = append(reqs, Req{Kind: "re", Site: "SRuleVarNeg", A: strings.ToLower(it.Arg)}, rxReq(it.Arg2))
+			reqs = append(reqs, Req{Kind: "rel", Site: "SRuleVarNeg", A: it.Arg}, rxReq(it.Arg2))
 		case "ctl":
 			fmt.Fprintf(&sb, "SecAction \"id:%d,phase:1,pass,nolog,ctl:ruleRemoveTargetById=%d;ARGS:/%s/\"\n", id, idBase+999, it.Arg)
 			reqs = append(reqs, Req{Kind: "re", Site: "SCtl", A: it.Arg})
@@ -242,6 +291,7 @@ type liveWAF struct {
 }
 
 func (c Config) root(l *liveWAF) (fs.FS, error) {
+	c = c.decoded()
 	if c.DirFS {
 		dir, err := os.MkdirTemp("", "verif-c13-")
 		if err != nil {
@@ -299,7 +349,7 @@ func (l *liveWAF) close() {
 }
 
 // probe requests: every vocabulary word as ARGS:x, a JSON document as ARGS:j, a few paths
-var probeWords = []string{"foo", "bar", "baz", "xfooy", "FOO", "fo", "fooo", "ds", "foo bar", "foo.json", "list.txt", "11.111.111-1", "zzz", "fo\xffo"}
+var probeWords = []string{"k", "K", "\u212a", "i", "\u0130", "\xff", "\ufffd", "\u00e9t\u00e9", "\u00c9T\u00c9", "foo", "bar", "baz", "xfooy", "FOO", "fo", "fooo", "ds", "foo bar", "foo.json", "list.txt", "11.111.111-1", "zzz", "fo\xffo"}
 var probeJSON = []string{`{"a":1}`, `{"a":"s"}`, `{}`, `[1]`}
 var probePaths = []string{"/foo/123", "/foo", "/bar/x/y", "/foo/1/bar"}
 
@@ -398,7 +448,8 @@ func errClass(s string) string {
 	if len(s) > 160 {
 		s = s[:160]
 	}
-	return s
+	// error texts quote the offending pattern: keep them JSON-safe (the solo outcomes travel through JSON)
+	return strings.ToValidUTF8(s, "\ufffd")
 }
 
 // ---------------------------------------------------------------------------------------------
@@ -504,13 +555,19 @@ func buildNoMemoize(outDir string) (string, error) {
 // the shared vocabulary: every string is used in as many roles as its syntax allows
 var vocab = []string{"foo", "bar", "foo bar", "fo+", "ba[rz]", "(", "foo.json", "ds", "FOO", "list.txt", "/foo/{id}", `fo\xffo`, "[0-9.-]+", `b\xfear`}
 
+// strings whose lower-cased forms collide only through strings.ToLower's rune mapping: U+212A KELVIN SIGN / k,
+// U+0130 / i, an invalid byte / U+FFFD, plus a multi-byte upper/lower pair; used in the roles that lower-case
+// (@pm phrases, @pmFromFile lines, regex keys of REQUEST_HEADERS) and, unlowered, as ARGS regex keys and data-set entries
+var vocabU = []string{"\u212a", "k", "\u0130", "i", "\x01ff", "\ufffd", "\u00c9t\u00e9", "\u00e9T\u00c9", "K\u212a \x01ffoo"}
+
 func simpleTok(s string) bool { // usable inside ARGS:/../, ctl keys, file and data-set names
 	return !strings.ContainsAny(s, " |/\"',;`") && s != ""
 }
 func fileName(s string) bool { return simpleTok(s) && !strings.ContainsAny(s, "()[]+\\{}") }
 
-var datasetContents = [][]string{{"foo"}, {"bar"}, {"foo", "bar"}, {"baz", "FOO"}, {}, {"fo", "# note", " ds "}, {"b\x00c"}}
-var listContents = []string{"foo\n", "bar\nfoo\n", "# c\n Foo \n\nbaz\n", "ds", "FOO\r\nlist.txt\r\n", ""}
+var datasetContents = [][]string{{"foo"}, {"bar"}, {"foo", "bar"}, {"baz", "FOO"}, {}, {"fo", "# note", " ds "}, {"b\x00c"}, {"\u212a"}, {"k"}, {"\x01ff", "\u0130"}}
+var listContents = []string{"foo\n", "bar\nfoo\n", "# c\n Foo \n\nbaz\n", "ds", "FOO\r\nlist.txt\r\n", "",
+	"\u212a\n", "k\n", "\x01ff\nfoo\n", "\ufffd\nFOO\n", "\u0130\n", "i\n", "\u00c9T\u00c9\n", "\u00e9t\u00e9\n"}
 var schemaContents = []string{
 	`{"title":"t1","type":"object","properties":{"a":{"type":"number"}},"required":["a"]}`,
 	`{"title":"t2","type":"object","properties":{"a":{"type":"string"}}}`,
@@ -521,6 +578,18 @@ var schemaContents = []string{
 func pick[T any](rng *rand.Rand, l []T) T { return l[rng.Intn(len(l))] }
 
 func pickIf(rng *rand.Rand, ok func(string) bool) string {
+	return pickFrom(rng, vocab, ok)
+}
+
+// pickU: roles that tolerate arbitrary bytes draw from the non-ASCII vocabulary every third time
+func pickU(rng *rand.Rand, ok func(string) bool) string {
+	if rng.Intn(3) == 0 {
+		return pickFrom(rng, vocabU, ok)
+	}
+	return pickFrom(rng, vocab, ok)
+}
+
+func pickFrom(rng *rand.Rand, vocab []string, ok func(string) bool) string {
 	for {
 		s := pick(rng, vocab)
 		if ok(s) {
@@ -532,7 +601,7 @@ func pickIf(rng *rand.Rand, ok func(string) bool) string {
 func genConfig(rng *rand.Rand) Config {
 	c := Config{PreFilter: rng.Intn(3) == 0, DirFS: rng.Intn(6) == 0}
 	n := 1 + rng.Intn(4)
-	kinds := []string{"pm", "pm", "rx", "rx", "restpath", "nid", "varrx", "varrx", "negrx", "ctl", "relstatus", "pmds", "pmds", "pmf", "pmf", "schema"}
+	kinds := []string{"pm", "pm", "rx", "rx", "restpath", "nid", "varrx", "varrx", "negrx", "negrx", "negrx", "ctl", "relstatus", "pmds", "pmds", "pmf", "pmf", "schema"}
 	any := func(string) bool { return true }
 	noQuote := func(s string) bool { return !strings.ContainsAny(s, "\"`") }
 	for i := 0; i < n; i++ {
@@ -540,15 +609,15 @@ func genConfig(rng *rand.Rand) Config {
 		it := Item{Kind: k}
 		switch k {
 		case "pm":
-			it.Arg = pickIf(rng, noQuote)
+			it.Arg = pickU(rng, noQuote)
 		case "rx", "nid":
 			it.Arg = pickIf(rng, noQuote)
 		case "restpath":
 			it.Arg = pickIf(rng, noQuote)
 		case "varrx":
-			it.Arg, it.Arg2 = pickIf(rng, simpleTok), pickIf(rng, noQuote)
+			it.Arg, it.Arg2 = pickU(rng, simpleTok), pickU(rng, noQuote)
 		case "negrx":
-			it.Arg, it.Arg2 = pickIf(rng, simpleTok), pickIf(rng, noQuote)
+			it.Arg, it.Arg2 = pickU(rng, simpleTok), pickIf(rng, noQuote)
 		case "ctl", "relstatus":
 			it.Arg = pickIf(rng, simpleTok)
 		case "pmds":
@@ -697,6 +766,12 @@ func (r *runner) runCase(c caseJSON) (term string, err error) {
 			case "re":
 				if _, e := regexp.Compile(q.A); e != nil {
 					badRe[q.A] = true
+				}
+			case "rel":
+				if l := strings.ToLower(q.A); true {
+					if _, e := regexp.Compile(l); e != nil {
+						badRe[l] = true
+					}
 				}
 			case "rx":
 				d := rxPrefix() + q.A
@@ -850,6 +925,37 @@ func (r *runner) runCase(c caseJSON) (term string, err error) {
 			}
 		}
 	}
+	// lower-casing collisions: two DIFFERENT texts in lower-casing roles (@pm phrases, @pmFromFile lines,
+	// REQUEST_HEADERS regex keys) of this case with the same strings.ToLower
+	lowered := map[string]map[string]bool{}
+	addLow := func(role, raw string) {
+		k := role + "\x00" + strings.ToLower(raw)
+		if lowered[k] == nil {
+			lowered[k] = map[string]bool{}
+		}
+		lowered[k][raw] = true
+	}
+	for _, cf := range c.Configs {
+		d := cf.decoded()
+		for _, it := range d.Items {
+			switch it.Kind {
+			case "pm":
+				addLow("pm", it.Arg)
+			case "varrx":
+				addLow("pm", it.Arg2)
+			case "negrx":
+				addLow("re", it.Arg)
+			case "pmf":
+				addLow("pmf", strings.Join(fileLines(d.Files[it.Arg]), "\n"))
+			}
+		}
+	}
+	for _, raws := range lowered {
+		if len(raws) > 1 {
+			r.dist.Inc("case:texts-colliding-after-ToLower")
+			break
+		}
+	}
 	reuse := false
 	for _, ks := range roles {
 		if len(ks) > 1 {
@@ -998,7 +1104,7 @@ func Run(cfg vh.Config) (*vh.Result, error) {
 		}
 		si, err := vh.WriteShard(cfg.OutDir, vh.Shard{
 			Name: fmt.Sprintf("C13_%d", k), Imports: "From Verif Require Import Base Memo CorrC13.\nFrom VerifGen Require Import FactsC13.",
-			CaseType: "CorrC13.case", MismatchF: "CorrC13.mismatches FactsC13.source_tags", Terms: terms[i:j], Cases: descs[i:j],
+			CaseType: "CorrC13.case", MismatchF: "CorrC13.mismatches FactsC13.source_tags FactsC13.lower_table", Terms: terms[i:j], Cases: descs[i:j],
 		})
 		if err != nil {
 			return nil, err
@@ -1015,7 +1121,7 @@ func Run(cfg vh.Config) (*vh.Result, error) {
 }
 
 // probe words for the descriptor of a matcher
-var acVocab = []string{"foo", "bar", "baz", "FOO", "fo", "ds", "xfooy", "list.txt", "b\x00c", ""}
+var acVocab = []string{"k", "K", "\u212a", "i", "\xff", "\ufffd", "\u00e9t\u00e9", "\u00c9t\u00e9", "foo", "bar", "baz", "FOO", "fo", "ds", "xfooy", "list.txt", "b\x00c", ""}
 
 func rxPrefix() string {
 	if operators.VerifC13MultilineOff() {
